@@ -178,6 +178,14 @@ def text_cases():
         out.append(dict(text=True, kind='prev_word', stages=[f"{{{key}: [1, 2], '8': [eight], other: 3}}", f'{{picked: !prev {w}}}'],
                         expect={'8': ['eight'], 'other': 3, 'picked': [1, 2]}))
     out.append(dict(text=True, kind='prev_word', stages=["{'no': {a: [1]}, k: 1}", '{m: !prev no}', "{m: {a: !append [2]}}"], expect={'k': 1, 'm': {'a': [1, 2]}}))
+    # (c) `q: !prev p` where q ALREADY holds a mapping with content of its own: "every other path keeps its value" - the moved subtree is merged
+    # into q, q's own keys stay - also when the source was an element of a list or a child of a `!del` mapping (inherited delete marks are stale)
+    out.append(dict(text=True, kind='prev_word', stages=['{defaults: [{driver: pg, pool: 5}, {driver: sqlite}], db: {host: localhost, port: 5432}, other: 1}', '{db: !prev "defaults[0]"}'],
+                    expect={'defaults': [{'driver': 'sqlite'}], 'db': {'host': 'localhost', 'port': 5432, 'driver': 'pg', 'pool': 5}, 'other': 1}))
+    out.append(dict(text=True, kind='prev_word', stages=['{p: !del {x: {u: 1}, keep: 0}, q: {x: {v: 2}, y: 3}}', '{q: !prev p.x}'],
+                    expect={'p': {'keep': 0}, 'q': {'x': {'v': 2}, 'y': 3, 'u': 1}}))
+    out.append(dict(text=True, kind='prev_word', stages=['{defaults: [{driver: pg}], db: {host: localhost}}', '{defaults: !append [{driver: sqlite}]}', '{db: !prev "defaults[1]"}'],
+                    expect={'defaults': [{'driver': 'pg'}], 'db': {'host': 'localhost', 'driver': 'sqlite'}}))
     inc = [dict(files={'ext.yaml': 'plugins: !append [viz, net]\npaths: {search: !extend [/opt/x]}\n'},
                 outer=['{plugins: [core, io], paths: {search: [/usr/share/app]}}'], included=['ext.yaml'],
                 expect={'plugins': ['core', 'io', 'viz', 'net'], 'paths': {'search': ['/usr/share/app', '/opt/x']}}),
